@@ -722,6 +722,142 @@ partial def loop (h : IO.FS.Stream) (st : St) : IO St := do
   for m in msgs do IO.println m
   loop h st'
 
+/-! ## crash mode (C04): recovery from crash images
+
+Input: the main trace, then for each crash image a block
+`IMAGE <opLine> <eventNo> <kind> <relpath> <len> <torn>` · recovery lines `op\tresult` · `ENDIMAGE`.
+`opLine` = the (1-based) trace line during which the file mutation happened. -/
+
+structure ImageBlock where
+  opLine : Nat
+  header : String
+  lines : List String
+
+def splitImages (ls : List String) : List String × List ImageBlock :=
+  let rec go (ls : List String) (main : List String) (cur : Option ImageBlock) (acc : List ImageBlock) :
+      List String × List ImageBlock :=
+    match ls with
+    | [] => (main.reverse, acc.reverse)
+    | l :: rest =>
+      if l.startsWith "IMAGE " then
+        let f := l.splitOn " "
+        go rest main (some { opLine := (f.getD 1 "").toNat?.getD 0, header := l, lines := [] }) acc
+      else if l.startsWith "ENDIMAGE" then
+        match cur with
+        | some b => go rest main none ({ b with lines := b.lines.reverse } :: acc)
+        | none => go rest main none acc
+      else match cur with
+        | some b => go rest main (some { b with lines := l :: b.lines }) acc
+        | none => go rest (l :: main) none acc
+  go ls [] none []
+
+/-- messages a recovery poll returned: `ok pid cur m1,m2…` → list of message texts -/
+def pollMsgs (impl : String) : Option (Nat × List String) :=
+  match impl.splitOn " " with
+  | "ok" :: _ :: cur :: rest => some (cur.toNat?.getD 0, ((rest.headD "").splitOn ",").filter (· ≠ ""))
+  | _ => none
+
+def msgOff (m : String) : Nat := ((m.splitOn ":").headD "").toNat?.getD 0
+
+/-- messages the L1 model holds on disk (log + index written) for a partition -/
+def durableOf (y : Sys) (k : PKey) : List Msg :=
+  match find? y.streams k.1 with
+  | some s => (match find? s.topics k.2.1 with
+    | some t => (match find? t.parts k.2.2 with
+      | some p => ((p.segs.map (fun sg => batchesMsgs sg.log)).flatten)
+      | none => [])
+    | none => [])
+  | none => []
+
+/-- judge one crash image. `before` / `after`: judge states around the interrupted operation. -/
+def judgeImage (before after : St) (b : ImageBlock) (dataOp : Bool) : List String :=
+  let hdr := b.header
+  let tornState := hdr.contains "state/log" && !(hdr.endsWith " full")
+  match b.lines with
+  | [] => [s!"SPEC-VIOL {b.opLine} class=crash-no-recovery {hdr}"]
+  | first :: rest =>
+    let ready := ((first.splitOn "\t").getD 1 "").trimAscii.toString
+    if !ready.startsWith "ready" then
+      -- a torn state-log tail may be *reported* (start-up refuses); anything else must start
+      if tornState then [] else [s!"SPEC-VIOL {b.opLine} class=crash-init-failed {hdr} start-up answered: {ready}"]
+    else
+    -- recovery lines come in pairs per partition: poll-before-send, send, poll-after-send
+    let parsed := rest.map (fun l => match l.splitOn "\t" with
+      | [o, r] => (o.trimAscii.toString, r.trimAscii.toString)
+      | o :: _ => (o.trimAscii.toString, "")
+      | [] => ("", ""))
+    let died := parsed.any (fun p => p.2 == "died" || p.2.startsWith "panic")
+    (if died then [s!"SPEC-VIOL {b.opLine} class=crash-panic {hdr} the recovered server died or panicked"] else []) ++
+    (parsed.zipIdx.filterMap (fun (p, i) =>
+      let toks := (p.1.splitOn " ").filter (· ≠ "")
+      match toks with
+      | ["poll", _, s, t, pid, _, "offset:0", _, _] =>
+        match parseIdent s, parseIdent t, pid.toNat? with
+        | some si, some ti, some pidN =>
+          match resolvePart after.sys si ti pidN, pollMsgs p.2 with
+          | some (key, _), some (_, ms) =>
+            let acc : List String := ((after.spec.get key).map (fun sp => sp.msgs.map (showMsg after.enc))).getD []
+            let accB : List String := ((before.spec.get key).map (fun sp => sp.msgs.map (showMsg before.enc))).getD []
+            let dur := (durableOf before.sys key).length
+            -- is this the poll after the post-recovery send? (preceded by a send line)
+            let afterSend := i > 0 && ((parsed.getD (i - 1) ("", "")).1.startsWith "send")
+            if afterSend then
+              -- R ++ [new]: the new message continues at the next offset
+              let r := ms.dropLast
+              let new := ms.getLast?.getD ""
+              let expectOff := match r.getLast? with
+                | some l => msgOff l + 1
+                | none => msgOff new     -- nothing recovered: no constraint from R
+              if (parsed.getD (i - 1) ("", "")).2 != "ok" then none
+              else if ms.isEmpty then some s!"SPEC-VIOL {b.opLine} class=crash-send-lost {hdr} partition={key.1}/{key.2.1}/{key.2.2} a message sent after recovery cannot be read"
+              else if msgOff new != expectOff || (r.map msgOff).any (· == msgOff new) then
+                some s!"SPEC-VIOL {b.opLine} class=crash-offset-reuse {hdr} partition={key.1}/{key.2.1}/{key.2.2} after recovery the next message got offset {msgOff new}, recovered={r.map msgOff}"
+              else none
+            else if !dataOp then none
+            else
+              -- R must be a gap-free prefix of what was accepted, containing everything durable
+              let isPrefixOf (a bb : List String) : Bool := a.length ≤ bb.length && a == bb.take a.length
+              if !(isPrefixOf ms acc || isPrefixOf ms accB) then
+                some s!"SPEC-VIOL {b.opLine} class=crash-not-prefix {hdr} partition={key.1}/{key.2.1}/{key.2.2} recovered={ms.map msgOff} accepted={acc.map msgOff}"
+              else if ms.length < dur then
+                some s!"SPEC-VIOL {b.opLine} class=crash-lost-durable {hdr} partition={key.1}/{key.2.1}/{key.2.2} recovered {ms.length} messages, {dur} had been written (log and index) before the crash"
+              else none
+          | _, _ => none
+        | _, _, _ => none
+      | _ => none))
+
+def crashMain : IO UInt32 := do
+  let stdin ← IO.getStdin
+  let first ← stdin.getLine
+  let st0 := parseCfg ((first.splitOn "\t").headD "")
+  let mut all : List String := []
+  let mut line ← stdin.getLine
+  while !line.isEmpty do
+    all := (line.dropEndWhile (fun c => c == '\n' || c == '\r')).toString :: all
+    line ← stdin.getLine
+  let (main, images) := splitImages all.reverse
+  let mut st := st0
+  let mut viol := 0
+  let mut judged := 0
+  for l in main do
+    if l.trimAscii.toString.isEmpty then continue
+    let before := st
+    let (st', msgs) := stepLine st l
+    st := st'
+    for m in msgs do IO.println m
+    let opName := ((l.splitOn "\t").headD "").trimAscii.toString.splitOn " " |>.headD ""
+    let dataOp := opName == "send" || opName == "flush" || opName == "save" || opName == "poll" ||
+      opName == "store-offset" || opName == "delete-offset"
+    for b in images do
+      if b.opLine == st.line then
+        judged := judged + 1
+        for m in judgeImage before st b dataOp do
+          viol := viol + 1
+          IO.println m
+  IO.println ("COV " ++ " ".intercalate (st.cov.map (fun e => s!"{e.1}={e.2}")) ++ s!" images={judged}")
+  IO.println s!"DONE lines={st.line} modelled={st.modelled} corr={st.corr} spec={st.specViol + viol}"
+  return 0
+
 def main (args : List String) : IO UInt32 := do
   let stdin ← IO.getStdin
   match args with
@@ -733,6 +869,7 @@ def main (args : List String) : IO UInt32 := do
     IO.println s!"DONE lines={st.line} modelled={st.modelled} corr={st.corr} spec={st.specViol}"
     return 0
   | ["journal"] => Driver.Journal.main
+  | ["crash"] => crashMain
   | ["permsound", a, b] =>
     -- search the enumerated space for an input on which a generated rule violates the specification
     let a := a.toNat?.getD 0
